@@ -1,5 +1,6 @@
 import FitProps.RawLemmas
 import FitProps.DecProgLemmas
+import FitModel.Listener
 /-! Lemmas behind the clauses of C03 about the entry points other than `decoder.Decoder`'s own API model:
 
 * the raw decoder (`FitModel/Raw.lean`): the explicit `.panic` outcome (a data record longer than the fixed
@@ -263,3 +264,220 @@ theorem runRB_no_panic {β : Type} {μ : Out → β} {Q : RErr → Out → Prop}
         simp [runRB]
 
 end Fit.DecProg
+
+namespace Fit.Listener
+/-! ### the listener's transition system has no infinite run
+
+Every step either consumes a call of the script, or moves the producer's / the worker's program counter forward, or
+takes a message out of the queue: the pair (calls left, rank of the two program counters + 3 · queue length) decreases
+lexicographically. Together with deadlock freedom (C14) this is termination: every run ends, and it ends with the
+producer finished. -/
+section
+variable {M σ : Type} (proc : σ → M → σ) (init : σ)
+
+def rankP (P : Nat) : PC M → Nat
+  | .fin => 0
+  | .idle => 1
+  | .closeWait _ => 3
+  | .onSend _ _ => 6
+  | .onTake _ => 7
+  | .closingPut k _ _ => 4 + 2 * (P - k)
+  | .closing k _ => 5 + 2 * (P - k)
+
+def rankC : WC → Nat
+  | .exited => 0
+  | .recv => 1
+  | .ret _ => 2
+  | .proc _ => 3
+
+/-- the termination measure -/
+def mu (s : St M σ) : Nat × Nat := (s.script.length, rankP s.P s.p + 3 * s.queue.length + rankC s.c)
+
+def muLt (a b : Nat × Nat) : Prop := a.1 < b.1 ∨ (a.1 = b.1 ∧ a.2 < b.2)
+
+theorem rankC_le (c : WC) : rankC c ≤ 3 := by cases c <;> simp [rankC]
+
+theorem stepC_decreases (s s' : St M σ) (h : stepC proc s = some s') : muLt (mu s') (mu s) := by
+  unfold stepC at h
+  cases hc : s.c with
+  | recv =>
+    rw [hc] at h
+    simp only at h
+    cases hq : s.queue with
+    | nil =>
+      rw [hq] at h
+      simp only at h
+      split at h
+      · cases h
+        right
+        simp [mu, rankC, hc, hq]
+      · cases h
+    | cons t q =>
+      rw [hq] at h
+      cases h
+      right
+      simp [mu, rankC, hc, hq]
+      omega
+  | proc t =>
+    rw [hc] at h
+    cases h
+    right
+    simp [mu, rankC, hc]
+  | ret t =>
+    rw [hc] at h
+    simp only at h
+    split at h
+    · cases h
+      right
+      simp [mu, rankC, hc]
+    · cases h
+  | exited => rw [hc] at h; cases h
+
+theorem finishClose_mu (a : After) (s : St M σ) :
+    (finishClose init a s).script = s.script ∧ (finishClose init a s).p = .idle ∧
+    (finishClose init a s).queue.length ≤ s.queue.length ∧
+    (rankC (finishClose init a s).c ≤ 1 ∨ (finishClose init a s).c = s.c) := by
+  cases a with
+  | file => exact ⟨rfl, rfl, Nat.le_refl _, Or.inr rfl⟩
+  | close => exact ⟨rfl, rfl, Nat.le_refl _, Or.inr rfl⟩
+  | reset n =>
+    refine ⟨?_, rfl, ?_, Or.inl ?_⟩
+    · simp only [finishClose, respawn, resize]; split <;> rfl
+    · simp [finishClose, respawn]
+    · simp [finishClose, respawn, rankC]
+
+theorem stepP_decreases (s s' : St M σ) (h : stepP init s = some s') : muLt (mu s') (mu s) := by
+  unfold stepP at h
+  cases hp : s.p with
+  | idle =>
+    rw [hp] at h
+    simp only at h
+    cases hs : s.script with
+    | nil =>
+      rw [hs] at h
+      cases h
+      right
+      simp [mu, rankP, hp, hs]
+    | cons c cs =>
+      rw [hs] at h
+      left
+      cases c with
+      | onMesg m => cases h; simp [mu, hs]
+      | file =>
+        cases h
+        simp only [mu, hs, List.length_cons]
+        unfold startClose
+        split
+        · simp
+        · rw [(finishClose_mu init _ _).1]; simp
+      | close =>
+        cases h
+        simp only [mu, hs, List.length_cons]
+        unfold startClose
+        split
+        · simp
+        · rw [(finishClose_mu init _ _).1]; simp
+      | reset n =>
+        cases h
+        simp only [mu, hs, List.length_cons]
+        unfold startClose
+        split
+        · simp
+        · rw [(finishClose_mu init _ _).1]; simp
+  | onTake m =>
+    rw [hp] at h
+    simp only at h
+    cases hpool : s.pool with
+    | nil => rw [hpool] at h; cases h
+    | cons t pool' =>
+      rw [hpool] at h
+      cases h
+      right
+      simp [mu, rankP, hp]
+  | onSend m t =>
+    rw [hp] at h
+    simp only at h
+    split at h
+    · cases h
+      right
+      simp [mu, rankP, hp]
+      omega
+    · split at h
+      · rename_i hc
+        cases h
+        right
+        simp [mu, rankP, rankC, hp, hc.2]
+        omega
+      · cases h
+  | closing k a =>
+    rw [hp] at h
+    simp only at h
+    cases hpool : s.pool with
+    | nil => rw [hpool] at h; cases h
+    | cons t pool' =>
+      rw [hpool] at h
+      cases h
+      right
+      simp [mu, rankP, hp]
+  | closingPut k t a =>
+    rw [hp] at h
+    simp only at h
+    split at h
+    · cases h
+      right
+      simp only [mu, true_and]
+      split
+      · rename_i hk
+        simp [rankP, hp]
+        omega
+      · simp [rankP, hp]
+        omega
+    · cases h
+  | closeWait a =>
+    rw [hp] at h
+    simp only at h
+    split at h
+    · cases h
+      have hf := finishClose_mu init a s
+      right
+      refine ⟨by simp [mu, hf.1], ?_⟩
+      simp only [mu]
+      have hP : rankP (finishClose init a s).P (finishClose init a s).p = 1 := by rw [hf.2.1]; rfl
+      rw [hP, hp]
+      simp only [rankP]
+      rcases hf.2.2.2 with h1 | h1
+      · have := hf.2.2.1; omega
+      · rw [h1]; have := hf.2.2.1; omega
+    · cases h
+  | fin => rw [hp] at h; cases h
+
+theorem step_decreases (s s' : St M σ) (h : Step proc init s s') : muLt (mu s') (mu s) := by
+  rcases h with h | h
+  · exact stepP_decreases init s s' h
+  · exact stepC_decreases proc s s' h
+
+theorem muLt_wf : WellFounded muLt := by
+  have h : WellFounded (Prod.Lex (· < · : Nat → Nat → Prop) (· < · : Nat → Nat → Prop)) :=
+    (Prod.lex ⟨_, Nat.lt_wfRel.wf⟩ ⟨_, Nat.lt_wfRel.wf⟩).wf
+  refine Subrelation.wf ?_ h
+  intro a b hab
+  obtain ⟨a1, a2⟩ := a
+  obtain ⟨b1, b2⟩ := b
+  rcases hab with h1 | ⟨h1, h2⟩
+  · exact Prod.Lex.left _ _ h1
+  · simp only at h1 h2; subst h1; exact Prod.Lex.right _ h2
+
+/-- **No infinite run**: whatever the state (reachable or not), whatever the interleaving, the listener's transition
+system cannot step forever -/
+theorem no_infinite_run (f : Nat → St M σ) : ¬ ∀ i, Step proc init (f i) (f (i + 1)) := by
+  intro hall
+  have key : ∀ x : Nat × Nat, ∀ i, mu (f i) = x → False := by
+    intro x
+    induction x using muLt_wf.induction with
+    | _ x ih =>
+      intro i hi
+      exact ih (mu (f (i + 1))) (hi ▸ step_decreases proc init _ _ (hall i)) (i + 1) rfl
+  exact key _ 0 rfl
+
+end
+end Fit.Listener
